@@ -90,6 +90,13 @@ class Runner:
                 continue
             if args and isinstance(args[0], str) and op.rstrip('%&!#$@') in ('pushrefl', 'readl', 'storel', 'readidxl', 'storeidxl'):
                 args = [memlayout.get_local_var_idx(self.routine, args[0])] + list(args[1:])
+            if op == 'io':
+                from contracts.vm import QVM_DEVICES
+                dev, opn = args
+                out = h.call(cpu._exec_io, QVM_DEVICES[dev]['id'], QVM_DEVICES[dev]['ops'][opn])
+                if not out.returned:
+                    return out
+                continue
             out = h.call(getattr(cpu, exec_name(op)), *args)
             if not out.returned:
                 return out
@@ -305,7 +312,13 @@ def body_record_assignment(h):
     node.lvalue, node.rvalue, node.parent = lv, rv, None
     # the passes accept p = q for two records of the same type (static.assignment_records) ...
     code = qvm_codegen.QvmCode()
-    cg = ChildGen(None, [rv])
+    class RealLvalueGen(ChildGen):
+        # the right-hand side is a plain variable: its code comes from the real generator for reading an lvalue
+        def gen_code_for_node(self, n, c):
+            if isinstance(n, expr.Lvalue):
+                return qvm_codegen.gen_lvalue(n, c, self)
+            return ChildGen.gen_code_for_node(self, n, c)
+    cg = RealLvalueGen(None, [])
     cg.compilation = cu
     out = h.call(qvm_codegen.gen_assignment, node, code, cg)
     # ... so the generator must be able to generate it
@@ -377,8 +390,81 @@ NUMS = ['INTEGER', 'LONG', 'SINGLE', 'DOUBLE']
 CONTRACTS += [
     Contract('stmt.assignment', PROPS, ['qbee.qvm_codegen:gen_assignment', 'qbee.qvm_codegen:gen_lvalue_write'], body_assignment,
              cases=[(a, b) for a in NUMS for b in NUMS] + [('STRING', 'STRING')]),
-    Contract('stmt.record_assignment', ['C06', 'C01'], ['qbee.qvm_codegen:gen_assignment'], body_record_assignment),
+    Contract('stmt.record_assignment', ['C06', 'C01'], ['qbee.qvm_codegen:gen_assignment', 'qbee.qvm_codegen:gen_lvalue'], body_record_assignment),
     Contract('call.args', PROPS, ['qbee.qvm_codegen:gen_code_for_args', 'qbee.qvm_codegen:gen_lvalue_ref'], body_args,
              cases=[('variable', t, t) for t in ('INTEGER', 'DOUBLE', 'STRING')] +
                    [(k, p, a) for k in ('parenthesised_variable', 'expression') for p in ('INTEGER', 'LONG', 'DOUBLE') for a in ('INTEGER', 'DOUBLE')]),
+]
+
+
+# ------------------------------------------------------------------ READ statement
+
+def body_read_stmt(h, t1, t2):
+    """READ x, y: for each variable in order the device is asked for an item *of that variable's type*, and the cell
+    it delivers is stored into exactly that variable (C15: converted to the type of the receiving variable; C03: the
+    value stored has the declared type)"""
+    from contracts.vm import attach_devices
+    from qbee.utils import Empty
+    cu = CompilationUnit()
+    r = cu.main_routine
+    r.local_vars['pad'] = Type.LONG
+    r.local_vars['x'] = TN[t1]
+    r.local_vars['y'] = TN[t2]
+    r.local_vars['after'] = Type.LONG
+    nodes = []
+    for name in ('x', 'y'):
+        n = expr.Lvalue(name, [], [])
+        n.bind(cu)
+        n._parent_routine = r
+        n.implicit_decl = None
+        nodes.append(n)
+    node = object.__new__(stmt.ReadStmt)
+    node.var_list = nodes
+    node.parent = None
+    code = qvm_codegen.QvmCode()
+    cg = ChildGen(None, [])
+    cg.compilation = cu
+    out = h.call(qvm_codegen.gen_read_stmt, node, code, cg)
+    if not out.returned:
+        h.prove('generator.no_exception', False, detail=repr(out))
+        return
+    F = Seg(h, 'frame', cls=CallFrame, other_type=CT.LONG, size=memlayout.get_local_vars_size(r))
+    run = Runner(h, cu, r, F.seg)
+    attach_devices(run.cpu, None)
+
+    class _Mod:
+        pass
+    mod = _Mod()
+    items = []
+    for k, t in enumerate((t1, t2)):
+        if t == 'STRING':
+            items.append(h.str(f'item{k}'))
+        else:
+            items.append(Empty.value)
+    mod.data = [items]
+    run.cpu.module = mod
+    bad = run.run(code._instrs, [])
+    h.prove('no_exception', bad is None, detail=repr(bad))
+    if bad is not None:
+        return
+    stack_after(h, run.cpu, 0)
+    ix, iy = memlayout.get_local_var_idx(r, 'x'), memlayout.get_local_var_idx(r, 'y')
+    for k, (t, idx) in enumerate(((t1, ix), (t2, iy))):
+        c = F.cell(h, idx)
+        want = items[k] if t == 'STRING' else (0 if t in ('INTEGER', 'LONG') else 0.0)
+        ok = c is not None
+        h.prove(f'variable_{k}_assigned', ok)
+        if ok:
+            prove_cell(h, f'variable_{k}_holds_item_{k}_in_its_declared_type', c, ETYPES[t][0], want)
+    F.prove_only_written(h, 'only_the_variables_written', [ix, iy])
+    dev = run.cpu.devices['data']
+    h.prove('two_items_consumed', land(dev.data_part == 1, dev.data_idx == 0))
+
+
+CONTRACTS += [
+    Contract('stmt.read', ['C15', 'C01', 'C03'], ['qbee.qvm_codegen:gen_read_stmt', 'qbee.qvm_codegen:gen_lvalue_write',
+                                                 'qvm.machine:DataDevice._exec_read'], body_read_stmt,
+             cases=[(a, b) for a in ('INTEGER', 'LONG', 'SINGLE', 'DOUBLE', 'STRING') for b in ('STRING', 'INTEGER', 'DOUBLE')],
+             assumed=__import__('contracts.c_input', fromlist=['ASSUMED']).ASSUMED,
+             trusted=['numeric items are the empty item here (numeric texts: data.read_numeric); string items symbolic']),
 ]
